@@ -384,7 +384,15 @@ def symbolic_part(ctx, q, registry, mf, F, B, fresh_engine, real, real_bad):
     ctx.ob("assemble/header-first", True if (len(hdr) == 1 and first and first[0] == "emit_header") else False,
            "header emissions: %d, first event %s" % (len(hdr), first and first[0]))
     if not (len(hdr) == 1 and first and first[0] == "emit_header"):
-        ctx.violation("assemble/header-not-first", "Module::assemble_into does not emit the header words first", None)
+        rp_ = Replay()
+        real_ = rp_.ask("load_disassemble %s" % ("03022307" "00000100" "00000000" "4d000000" "00000000" "00000100"))
+        rp_.close()
+        ws_ = real_.get("words", [])
+        if "panic" in real_ or (real_.get("loaded") and not (len(ws_) == 6 and ws_[0] == 0x07230203 and ws_[3] == 77 and ws_[5] == 1 << 16)):
+            ctx.violation("assemble/header-not-first", "Module::assemble_into does not emit the header words first: header (bound 77) + OpNop assembles to %s" % ws_,
+                          {"cmd": "load_disassemble", "real": real_})
+        else:
+            ctx.inconclusive.append(("assemble/header-first", "model-only: the compiled crate assembles %s" % ws_))
     asm = emitted_sequence(den2, r, r.mem)
     # per-function assembly
     fc = [x for x in mf.find("assemble_into") if re.search(r"\(_1: &(\w+::)*Function,", mf.lines[x[2]])]
